@@ -1,0 +1,42 @@
+//go:build verif
+
+// Contracts for the verif build tag (read by /verif/govc; comment-only).
+package kv
+
+// Iterators over the key space are external state (Pebble): positions and keys are
+// arbitrary; moving an iterator changes nothing else.
+//
+//@ func KeyIterator.Valid
+//@ trusted
+//@ pure
+//@ nondet
+
+//@ func KeyIterator.Key
+//@ trusted
+//@ pure
+//@ nondet
+
+//@ func KeyIterator.Next
+//@ trusted
+//@ modifies nothing
+
+//@ func KeyIterator.Prev
+//@ trusted
+//@ modifies nothing
+
+//@ func KeyIterator.SeekGE
+//@ trusted
+//@ modifies nothing
+
+//@ func KeyIterator.SeekLT
+//@ trusted
+//@ modifies nothing
+
+//@ func KeyIterator.Close
+//@ trusted
+//@ modifies nothing
+
+//@ func DB.KeyIterator() (it, err)
+//@ trusted
+//@ modifies nothing
+//@ ensures err == nil ==> it != nil
